@@ -1,9 +1,11 @@
 //! C20: HTML rendering.
 //! input lines:
-//!   F <idx:hex,idx:hex,...>           HtmlFormatter.format(markup, false)      -> hex(output)
+//!   F <0|1> <idx:hex,idx:hex,...>     HtmlFormatter.format(markup, indent)     -> hex(output)
+//!   I <hex setup source>|<hex keyword> interpret the setup, then `info <keyword>` rendered like numbat-wasm's
+//!                                     print_info (HtmlFormatter.format(markup, true))   -> <ok|setup-error> <hex(output)>
 //!   W <op,op,...>                     HtmlWriter ops: r | c:<fg 0..3>:<bold 0|1> | w:<hex>  -> hex(buffer)
 //!   E <hex source>                    interpret like numbat-wasm with FormatType::Html
-//!                                     -> <ok|resolver|nameres|typecheck|runtime|panic> <hex(output)>
+//!                                     -> <ok|resolver|nameres|typecheck|runtime|panic> <hex(output)> <hex(same markup with indent=true)>
 use crate::util::{hex, unhex, unhex_str};
 use codespan_reporting::term::{self, Config};
 use numbat::buffered_writer::BufferedWriter;
@@ -37,6 +39,8 @@ fn ftype(i: usize) -> FormatType {
 }
 
 fn run_f(arg: &str) -> String {
+    let (indent, arg) = arg.split_once(' ').unwrap_or((arg, ""));
+    let indent = indent == "1";
     let mut parts = vec![];
     for p in arg.split(',').filter(|p| !p.is_empty()) {
         let (i, h) = p.split_once(':').unwrap();
@@ -47,7 +51,7 @@ fn run_f(arg: &str) -> String {
             numbat::compact_str::CompactString::from(text).into(),
         ));
     }
-    let out = HtmlFormatter {}.format(&Markup(parts), false);
+    let out = HtmlFormatter {}.format(&Markup(parts), indent);
     hex(out.as_bytes())
 }
 
@@ -102,6 +106,7 @@ fn run_e(base: &Context, arg: &str) -> String {
     let r = catch_unwind(AssertUnwindSafe(|| {
         let fmt = HtmlFormatter {};
         let mut output = String::new();
+        let mut output_ind = String::new();
         let to_be_printed: Arc<Mutex<Vec<Markup>>> = Arc::new(Mutex::new(vec![]));
         let to_be_printed_c = to_be_printed.clone();
         let mut settings = InterpreterSettings {
@@ -118,11 +123,13 @@ fn run_e(base: &Context, arg: &str) -> String {
                 output.push_str(&nl);
                 for statement in &statements {
                     output.push_str(&fmt.format(&statement.pretty_print(), false));
+                    output_ind.push_str(&fmt.format(&statement.pretty_print(), true));
                     output.push_str(&nl);
                 }
                 output.push_str(&nl);
                 for content in to_be_printed.lock().unwrap().iter() {
                     output.push_str(&fmt.format(content, false));
+                    output_ind.push_str(&fmt.format(content, true));
                     output.push_str(&nl);
                 }
                 let result_markup = result.to_markup(
@@ -133,11 +140,12 @@ fn run_e(base: &Context, arg: &str) -> String {
                     &numbat::FormatOptions::default(),
                 );
                 output.push_str(&fmt.format(&result_markup, false));
-                ("ok", output)
+                output_ind.push_str(&fmt.format(&result_markup, true));
+                ("ok", output, output_ind)
             }
-            Err(NumbatError::ResolverError(e)) => ("resolver", emit(&ctx, &e)),
-            Err(NumbatError::NameResolutionError(e)) => ("nameres", emit(&ctx, &e)),
-            Err(NumbatError::TypeCheckError(e)) => ("typecheck", emit(&ctx, &e)),
+            Err(NumbatError::ResolverError(e)) => ("resolver", emit(&ctx, &e), String::new()),
+            Err(NumbatError::NameResolutionError(e)) => ("nameres", emit(&ctx, &e), String::new()),
+            Err(NumbatError::TypeCheckError(e)) => ("typecheck", emit(&ctx, &e), String::new()),
             Err(NumbatError::RuntimeError(e)) => (
                 "runtime",
                 emit(
@@ -147,8 +155,31 @@ fn run_e(base: &Context, arg: &str) -> String {
                         error: &e,
                     },
                 ),
+                String::new(),
             ),
         }
+    }));
+    match r {
+        Ok((kind, out, ind)) => format!("{kind} {} {}", hex(out.as_bytes()), hex(ind.as_bytes())),
+        Err(_) => "panic - -".to_string(),
+    }
+}
+
+/// `info <keyword>` after a setup input, rendered as numbat-wasm's print_info does
+fn run_i(base: &Context, arg: &str) -> String {
+    let (setup, kw) = arg.split_once('|').unwrap_or((arg, ""));
+    let (setup, kw) = (unhex_str(setup), unhex_str(kw));
+    let mut ctx = base.clone();
+    let r = catch_unwind(AssertUnwindSafe(|| {
+        let mut settings = InterpreterSettings {
+            print_fn: Box::new(move |_: &Markup| {}),
+        };
+        let ok = ctx
+            .interpret_with_settings(&mut settings, &setup, CodeSource::Text)
+            .is_ok();
+        let markup = ctx.print_info_for_keyword(&kw);
+        let out = HtmlFormatter {}.format(&markup, true).to_string();
+        (if ok { "ok" } else { "setup-error" }, out)
     }));
     match r {
         Ok((kind, out)) => format!("{kind} {}", hex(out.as_bytes())),
@@ -163,13 +194,13 @@ pub fn main() {
         match mode {
             "F" => run_f(arg),
             "W" => run_w(arg),
-            "E" => {
+            "E" | "I" => {
                 let ctx = base.get_or_insert_with(|| {
                     let mut ctx = Context::new(BuiltinModuleImporter::default());
                     let _ = ctx.interpret("use prelude", CodeSource::Internal).unwrap();
                     ctx
                 });
-                run_e(ctx, arg)
+                if mode == "E" { run_e(ctx, arg) } else { run_i(ctx, arg) }
             }
             _ => "?".into(),
         }
